@@ -402,6 +402,7 @@ static void inv_case(const vh_args_t *a, int op) {
     mzd_t *A = vh_mk(n, n, -1);
     vh_fill_invertible(A);
     if (vh_randint(0, 5) == 0) vh_fill_identity(A);
+    else if (vh_randint(0, 3) == 0) vh_fill_sparse_invertible(A);
     if (op == 0) {
       mzd_t *D = vh_randint(0, 1) ? NULL : vh_mk_kind(n, n, 0);
       vh_begin(&e, "inv_m4ri");
